@@ -13,8 +13,10 @@ ID = 'C05'
 LEVEL = 'exploration'
 RULE = ('case = (conditional instruction word, (cond, NZCV) pair, random valid state); words: solved members of '
         'every ARM decoder path with the cond field forced to 0..13, every Thumb-16 word and every Thumb-32 decoder '
-        'path inside an IT block, B T1/T3 with every cond; failing pairs for the no-op monitor, passing pairs for '
-        'AL-equivalence; plus the exhaustive 16x16x3 truth table. non-trivial = the same word with a passing '
+        'path inside an IT block (last slot, and for a third of the cases any other slot), B T1/T3 with every cond; failing '
+        'pairs for the no-op monitor, passing pairs for AL-equivalence; plus the exhaustive truth table (cond x NZCV) through '
+        'the real condition_passed() for the ARM cond field, B T1, B T3 and EVERY legal ITSTATE value (cond:mask, all 15 '
+        'non-zero mask nibbles). non-trivial = the same word with a passing '
         'condition changes state beyond the PC; distinct = (set, path id or word>>4, abstract execute class, cond)')
 ASSUMPTIONS = ['a step that ends in the Undefined Instruction exception or NotImplementedError is not judged by the '
                'no-op monitor (IMPLEMENTATION DEFINED whether an UNDEFINED instruction that fails its condition traps)',
@@ -107,7 +109,9 @@ class Mon:
         fail = [f for f in range(16) if not cond_holds(cond, f)]
         ok = [f for f in range(16) if cond_holds(cond, f)]
         seed = rng.getrandbits(48)
-        itpos = 'out' if kind == 'arm' else 'last'   # 'last' keeps must-be-last instructions predictable
+        # 'last' keeps must-be-last instructions predictable; 'mid' (any other ITSTATE<3:0>) is used for a third of the
+        # cases: an UNPREDICTABLE placement behaves the same in the compared runs, so the relations below still hold
+        itpos = 'out' if kind == 'arm' else rng.choice(['last', 'last', 'mid'])
 
         def go(c, nzcv):
             r = random.Random(seed)
@@ -231,9 +235,15 @@ def it_advance(it):
 def table(mon):
     """(i) exhaustive truth table through the real condition_passed()."""
     ctx = mon.ctx(('v6-pmsa-sec', 'off'))
-    for src in ('arm', 'b_t1', 'b_t3', 'it'):
+    for src in ('arm', 'b_t1', 'b_t3', 'it', 'it1', 'it2', 'it3', 'it4', 'it5', 'it6', 'it7', 'it9', 'it10', 'it11', 'it12', 'it13',
+                'it14', 'it15'):
+        low = 0b1000 if src == 'it' else (int(src[2:]) if src.startswith('it') else 0)
+        if src.startswith('it'):
+            src = 'it'
         for cond in range(16):
             for nzcv in range(16):
+                if src == 'it' and cond == 14 and low not in (1, 2, 4, 8):
+                    continue              # ITSTATE 1110:xxxx with an 'else' still to come is not a legal IT state
                 cpu = ctx.fresh()
                 r = cpu.registers
                 r.cpsr.value = (nzcv << 28) | 0b10011 | (0 if src == 'arm' else 0x20)
@@ -251,14 +261,14 @@ def table(mon):
                     if cond == 15:
                         continue          # ITSTATE cond 1111 is not a legal IT state
                     cpu.opcode, cpu.opcode_len = 0x1888, 16          # ADDS r0,r1,r2 inside the block
-                    r.cpsr.it = (cond << 4) | 0b1000
+                    r.cpsr.it = (cond << 4) | low
                 got = bool(cpu.condition_passed())
                 exp = cond_holds(cond, nzcv)
                 mon.res['evaluations'] += 1
                 mon.bump('truth_table_entries')
-                mon.res['nontrivial'].add('table|%s|%d|%d' % (src, cond, nzcv))
+                mon.res['nontrivial'].add('table|%s%s|%d|%d' % (src, low or '', cond, nzcv))
                 if got != exp:
-                    mon.report('C05|truth-table|%s|cond%d' % (src, cond),
+                    mon.report('C05|truth-table|%s%s|cond%d' % (src, ':%s' % format(low, '04b') if src == 'it' else '', cond),
                                'condition_passed() = %s for cond %s NZCV %s from %s, table says %s' % (
                                    got, format(cond, '04b'), format(nzcv, '04b'), src, exp),
                                dict(src=src, cond=cond, nzcv=nzcv))
@@ -386,7 +396,7 @@ def replay(data):
 def finish(agg, tier, seed):
     c = agg['counters']
     inc = []
-    if c.get('truth_table_entries', 0) < 16 * 16 + 3 * 14 * 16 + 15 * 16:
+    if c.get('truth_table_entries', 0) < 16 * 16 + 2 * 14 * 16 + 14 * 15 * 16 + 4 * 16 + 14 * 16:
         inc.append('truth table incomplete (%d entries)' % c.get('truth_table_entries', 0))
     if c.get('t16_words_covered', 0) != 65536:
         inc.append('Thumb-16 words not all covered')
